@@ -223,6 +223,15 @@ class Runner:
     def do_noop(self, op):
         return None
 
+    def do_drop(self, op):
+        """Forget an instance (machine, model, listeners) and let it be collected."""
+        tag = op["inst"]
+        self.objs.pop(tag, None)
+        SIM.machines.pop(tag, None)
+        SIM.models.pop(tag, None)
+        gc.collect()
+        return None
+
     def do_bind_foreign(self, op):
         """Bind another machine's event triggers onto this machine object (bind_events_to accepts any
         target); they are not events of this machine."""
@@ -439,7 +448,7 @@ class Runner:
 
     def _absent(self, n, op):
         """An op addressed to an instance whose construction failed is skipped (by the reference too)."""
-        if op["op"] in ("new", "define") or op.get("inst") is None:
+        if op["op"] in ("new", "define", "drop") or op.get("inst") is None:
             return False
         ent = self.objs.get(op["inst"])
         if ent and "sm" in ent:
